@@ -7,10 +7,17 @@
 (* For every case TLC computes the numbers the transcription predicts (the  *)
 (* candidate vectors), checks the C03 laws on them (model-level verdict,    *)
 (* exported as MODEL-FAIL) and exports the case for replay.                 *)
+(* Every case also names the unit system the quantity's registry is        *)
+(* configured with (cfg: 0 = none, else an index of Systems): base cases    *)
+(* enumerate it (requested system x configured system), conv cases rotate   *)
+(* through it.  For a base case TLC also decides which request the          *)
+(* default-argument forms (in_base(), convert_to_base(), ...) express:      *)
+(* the named one (dfam = "base") when the default resolves to the requested *)
+(* system, else one of their own (dfam = "based").                          *)
 (* Stride/Phase thin the triples deterministically (quick tier);            *)
 (* AllCombos = FALSE rotates one combo per triple instead of all.           *)
 EXTENDS Convert
-CONSTANTS Stride, Phase, AllCombos, WithBase
+CONSTANTS Stride, Phase, AllCombos, WithBase, CfgAll
 VARIABLE c
 
 FloatGrid == <<<<-2, 1>>, <<1, 2>>, <<7, 1>>>>
@@ -41,25 +48,36 @@ NumJ(z) == [r |-> Terms(z.re), i |-> Terms(z.im)]
 VecJ(v) == [e \in DOMAIN v |-> NumJ(v[e])]
 VecsJ(vs) == [j \in DOMAIN vs |-> VecJ(vs[j])]
 
+NSys == Len(Systems)
+CfgName(r) == IF r = 0 THEN "" ELSE Systems[r].name
+
 ConvCase(a, b, cc, k) ==
   LET A == PoolU[a] B == PoolU[b] C == PoolU[cc] cb == Combos[k]
-      ev == CaseEval("conv", A, B, C, 1, cb.dt, cb.xs)
+      ev == CaseEval("conv", A, B, C, 1, 0, cb.dt, cb.xs)
+      r == (a + 2 * b + cc) % (NSys + 1)
       ex == ev.exact cd == ev.cd x == InVec(cb.dt, cb.xs) IN
   [kind |-> "conv", a |-> a, b |-> b, c |-> cc, k |-> k, A |-> Pool[a], B |-> Pool[b], C |-> Pool[cc],
    dt |-> cb.dt, sh |-> cb.sh, xs |-> cb.xs, exact |-> ex, gen |-> Gen(A), sys |-> "", sysi |-> 1,
+   cfgi |-> r, cfg |-> CfgName(r), dfam |-> "", dbfam |-> "", dg |-> "",
    cand |-> [A |-> VecsJ(cd.A), B |-> VecsJ(cd.B), C |-> VecsJ(cd.C)],
    model |-> IF ex THEN [id |-> M_Id(ev, x), inv |-> M_Inv(ev, x), comp |-> M_Comp(ev), routes |-> M_Routes(A, B)]
              ELSE [id |-> TRUE, inv |-> TRUE, comp |-> TRUE, routes |-> TRUE]]
 
-BaseCase(a, s, k) ==
+BaseCase(a, s, r, k) ==
   LET A == PoolU[a] cb == Combos[k]
-      ev == CaseEval("base", A, A, A, s, cb.dt, cb.xs)
+      ev == CaseEval("base", A, A, A, s, r, cb.dt, cb.xs)
+      same == DefaultIsNamed(s, r)
       ex == ev.exact cd == ev.cd IN
   [kind |-> "base", a |-> a, b |-> a, c |-> a, k |-> k, A |-> Pool[a], B |-> Pool[a], C |-> Pool[a],
    dt |-> cb.dt, sh |-> cb.sh, xs |-> cb.xs, exact |-> ex, gen |-> Gen(A), sys |-> Systems[s].name, sysi |-> s,
+   cfgi |-> r, cfg |-> CfgName(r), dfam |-> IF same THEN "base" ELSE "based", dbfam |-> IF same THEN "bback" ELSE "dback",
+   dg |-> IF same THEN "B" ELSE "C",
    cand |-> [A |-> VecsJ(cd.A), B |-> VecsJ(cd.B), C |-> VecsJ(cd.C)],
    model |-> [id |-> TRUE, inv |-> IF ex THEN cd.A[2] = cd.A[1] ELSE TRUE, comp |-> TRUE, routes |-> TRUE]]
 
+\* quick: the configured system that makes the default argument mean the requested system, and one other (rotating,
+\* 0 = a registry made without a unit system included); thorough: every configured system
+KeepCfg(a, s, r) == CfgAll \/ r = s \/ r = ((a + s) % (NSys + 1))
 KeepTriple(a, b, cc) == ((a * 7 + b * 3 + cc) % Stride) = Phase
 KeepCombo(a, b, cc, k) == AllCombos \/ k = ((a + b + cc) % NCombos) + 1
 
@@ -69,9 +87,9 @@ Next == /\ c = <<>>
                 /\ a \in CompatOf[b] /\ KeepTriple(a, b, cc) /\ KeepCombo(a, b, cc, k)
                 /\ c' = ConvCase(a, b, cc, k)
            \/ /\ WithBase
-              /\ \E a \in 1..NPool : \E s \in DOMAIN Systems : \E k \in 1..NCombos :
-                /\ PoolU[a].ok /\ KeepCombo(a, s, 0, k)
-                /\ c' = BaseCase(a, s, k)
+              /\ \E a \in 1..NPool : \E s \in DOMAIN Systems : \E r \in 0..NSys : \E k \in 1..NCombos :
+                /\ PoolU[a].ok /\ KeepCfg(a, s, r) /\ KeepCombo(a, s, r, k)
+                /\ c' = BaseCase(a, s, r, k)
 
 ExportCase == (c # <<>>) => PrintT(ToJson([tag |-> "CASE"] @@ c))
 =============================================================================
